@@ -245,7 +245,8 @@ def gen_cases(rng, tier):
 
 def g_ref_case(rng):
     """Instance-specific references: `match $ref.Finished(...)` must only match events of that instance."""
-    if rng.random() < 0.5:
+    r0 = rng.random()
+    if r0 < 0.6:
         n = rng.choice([2, 2, 3])
         k = rng.randrange(n)
         scripts = [rng.choice(["one", "two", "one"]) for _ in range(n)]
@@ -255,7 +256,7 @@ def g_ref_case(rng):
             tgt = rng.choice(list(range(n)) + ["unknown", "none"])
             ev_params = dict(rng.choice([[], [["final_script", "x"]], [["final_script", "y"]], [["final_script", "x"], ["is_success", True], ["extra", 1]]]))
             events.append({"target": tgt, "params": ev_params})
-        return {"kind": "e2e_ref", "sub": "action", "n": n, "k": k, "scripts": scripts, "params": params, "events": events}
+        return {"kind": "e2e_ref", "sub": "action" if r0 < 0.35 else "ctor", "n": n, "k": k, "scripts": scripts, "params": params, "events": events}
     n = rng.choice([2, 2, 3])
     k = rng.randrange(n)
     order = list(range(n))
@@ -373,6 +374,111 @@ def run_impl(case):
     raise ValueError(case["kind"])
 
 
+class Recorder:
+    """Record, inside a real interpreter run, every call of `get_event_from_element` (op == match) and of
+    `_compute_event_comparison_score`, with everything the Lean models of these functions need."""
+
+    def __init__(self, sm):
+        self.sm = sm
+        self.calls = []
+        self.skipped = 0
+        self._evals = None
+
+    def _enc_ev(self, e):
+        from nemoguardrails.colang.v2_x.runtime.flows import ActionEvent, InternalEvent
+
+        kind = "internal" if isinstance(e, InternalEvent) else "action" if isinstance(e, ActionEvent) else "plain"
+        d = {"kind": kind, "name": e.name, "args": [[k, vj.enc(v)] for k, v in e.arguments.items()]}
+        if kind == "action" and e.action_uid is not None:
+            d["action_uid"] = e.action_uid
+        if kind == "internal" and getattr(e, "flow", None) is not None:
+            d["flow_uid"] = e.flow.uid
+        return d
+
+    def __enter__(self):
+        sm = self.sm
+        from nemoguardrails.colang.v2_x.lang.colang_ast import SpecType
+        from nemoguardrails.colang.v2_x.runtime.flows import Action, FlowState
+
+        self.orig = (sm.get_event_from_element, sm._evaluate_arguments, sm._compute_event_comparison_score)
+        o_gefe, o_eval, o_cmp = self.orig
+
+        def w_eval(arguments, context):
+            r = o_eval(arguments, context)
+            if self._evals is not None:
+                self._evals.append(dict(r))
+            return r
+
+        def w_gefe(state, flow_state, element):
+            outer = self._evals
+            self._evals = []
+            try:
+                res = o_gefe(state, flow_state, element)
+            finally:
+                evals, self._evals = self._evals, outer
+            try:
+                if element["op"] == "match":
+                    spec = element.spec
+                    st = None
+                    enc_args = lambda d: [[k, vj.enc(v)] for k, v in d.items()]
+                    if spec["var_name"] is not None:
+                        obj = flow_state.context.get(spec["var_name"])
+                        if spec.members is not None and len(spec.members) == 1 and len(evals) == 1:
+                            m = spec.members[0]["name"]
+                            if isinstance(obj, Action):
+                                st = {"form": "actionRef", "uid": obj.uid, "name": obj.name, "start_args": enc_args(obj.start_event_arguments), "member": m, "args": enc_args(evals[0])}
+                            elif isinstance(obj, FlowState):
+                                st = {"form": "flowRef", "uid": obj.uid, "flow_id": obj.flow_id, "flow_args": enc_args(obj.arguments), "member": m, "args": enc_args(evals[0])}
+                                if "_return_value" in obj.context:
+                                    st["return_value"] = vj.enc(obj.context["_return_value"])
+                    elif spec.members is not None:
+                        if spec.spec_type == SpecType.ACTION and len(evals) == 2:
+                            st = {"form": "actionCtor", "name": spec.name, "ctor_args": enc_args(evals[0]), "member": spec.members[0]["name"], "args": enc_args(evals[1])}
+                    elif len(evals) == 1:
+                        st = {"form": "bare", "name": spec.name, "is_lower": spec.name.islower(), "args": enc_args(evals[0])}
+                    if st is not None:
+                        self.calls.append({"fn": "gefe", "stmt": st, "res": self._enc_ev(res)})
+                    else:
+                        self.skipped += 1
+            except Exception:  # noqa  (unencodable value: outside the model's universe)
+                self.skipped += 1
+            return res
+
+        def w_cmp(state, event, ref_event, priority=None):
+            rec = None
+            try:
+                import copy
+
+                seen = event if type(event).__name__ == "InternalEvent" else copy.deepcopy(event)
+                sa = []
+                uid = getattr(event, "action_uid", None)
+                if uid is not None and uid in state.actions:
+                    sa = [[uid, [[k, vj.enc(v)] for k, v in state.actions[uid].start_event_arguments.items()]]]
+                rec = {"fn": "cmp", "ev": self._enc_ev(seen), "ref": self._enc_ev(ref_event), "start_args": sa,
+                       "prio": None if not priority else list(vj.dyadic(priority)),
+                       "rx": vj.rx_table([seen.arguments, [x for _, x in sa]])}
+            except Exception:  # noqa
+                self.skipped += 1
+            try:
+                r = o_cmp(state, event, ref_event, priority)
+            except Exception as e:  # noqa
+                if rec is not None:
+                    rec["exc"] = type(e).__name__
+                    self.calls.append(rec)
+                raise
+            if rec is not None:
+                rec["score"] = float(r)
+                self.calls.append(rec)
+            return r
+
+        sm.get_event_from_element, sm._evaluate_arguments, sm._compute_event_comparison_score = w_gefe, w_eval, w_cmp
+        return self
+
+    def __exit__(self, *a):
+        sm = self.sm
+        sm.get_event_from_element, sm._evaluate_arguments, sm._compute_event_comparison_score = self.orig
+
+
 def run_e2e_ref(case):
     sm = _SM
     from nemoguardrails.colang import parse_colang_file
@@ -380,12 +486,15 @@ def run_e2e_ref(case):
     from nemoguardrails.colang.v2_x.runtime.runtime import create_flow_configs_from_flow_list
 
     n, k = case["n"], case["k"]
-    if case["sub"] == "action":
+    if case["sub"] in ("action", "ctor"):
         lines = ["flow main"]
         for i in range(n):
             lines.append(f'  start UtteranceBotAction(script="{case["scripts"][i]}") as $a{i}')
         args = ", ".join(f"{kk}={render(vj.enc(v))}" for kk, v in case["params"])
-        lines += [f"  match $a{k}.Finished({args})", "  send Hit()", "  match Never()"]
+        if case["sub"] == "action":
+            lines += [f"  match $a{k}.Finished({args})", "  send Hit()", "  match Never()"]
+        else:
+            lines += [f'  match UtteranceBotAction(script="{case["scripts"][k]}").Finished({args})', "  send Hit()", "  match Never()"]
     else:
         lines = ["flow child $x", "  match Done(id=$x)", "flow main"]
         for i in range(n):
@@ -393,19 +502,36 @@ def run_e2e_ref(case):
         lines += [f"  match $r{k}.{case['event_kind']}()", "  send Hit()", "  match Never()"]
     src = "\n".join(lines) + "\n"
     obs = {"src": src, "hits": []}
+    rec = Recorder(sm)
     try:
+        with rec:
+            _run_ref_program(case, src, obs, sm)
+    except Exception as e:  # noqa
+        obs["exc"] = type(e).__name__ + ": " + str(e)[:100]
+    obs["calls"] = rec.calls[:400]
+    obs["calls_skipped"] = rec.skipped
+    return obs
+
+
+def _run_ref_program(case, src, obs, sm):
+    from nemoguardrails.colang import parse_colang_file
+    from nemoguardrails.colang.v2_x.runtime.flows import InternalEvent, State
+    from nemoguardrails.colang.v2_x.runtime.runtime import create_flow_configs_from_flow_list
+
+    n, k = case["n"], case["k"]
+    if True:
         with contextlib.redirect_stdout(io.StringIO()):
             cfg = create_flow_configs_from_flow_list(parse_colang_file(filename="", content=src, include_source_mapping=False, version="2.x")["flows"])
             st = State(flow_states=[], flow_configs=cfg)
             sm.initialize_state(st)
             sm.run_to_completion(st, InternalEvent(name="StartFlow", arguments={"flow_id": "main"}))
-        if case["sub"] == "action":
+        if case["sub"] in ("action", "ctor"):
             uids = [e["action_uid"] for e in st.outgoing_events if e.get("type") == "StartUtteranceBotAction"]
             obs["n_started"] = len(uids)
         obs["hit_at_start"] = any(e.get("type") == "Hit" for e in st.outgoing_events)
         for ev in case["events"]:
             st.outgoing_events.clear()
-            if case["sub"] == "action":
+            if case["sub"] in ("action", "ctor"):
                 d = {"type": "UtteranceBotActionFinished", **ev["params"]}
                 if ev["target"] == "unknown":
                     d["action_uid"] = "no-such-action"
@@ -416,9 +542,6 @@ def run_e2e_ref(case):
             with contextlib.redirect_stdout(io.StringIO()):
                 sm.run_to_completion(st, d)
             obs["hits"].append(any(e.get("type") == "Hit" for e in st.outgoing_events))
-    except Exception as e:  # noqa
-        obs["exc"] = type(e).__name__ + ": " + str(e)[:100]
-    return obs
 
 
 def run_e2e(case):
@@ -459,7 +582,13 @@ def run_e2e(case):
 
 def model_requests(case, obs):
     if case["kind"] == "e2e_ref":
-        return []  # oracle only: `get_event_from_element` is not modelled yet
+        reqs = []
+        for c in obs.get("calls", []):
+            if c["fn"] == "gefe":
+                reqs.append({"m": "C04.stmt", "stmt": c["stmt"]})
+            else:
+                reqs.append({"m": "C04.event", "ev": c["ev"], "ref": c["ref"], "rx": c["rx"], "prio": c["prio"], "start_args": c["start_args"]})
+        return reqs
     if case["kind"] == "fn":
         return [{"m": "C04.score", "arg": obs["arg_seen"], "ref": obs["ref_seen"], "rx": obs["rx"]}]
     if case["kind"] == "e2e":
@@ -475,7 +604,29 @@ def _close(a, b):
     return abs(a - b) <= 1e-9 * max(1.0, abs(a), abs(b))
 
 
+def _ev_canon(e):
+    return (e["kind"], e["name"], sorted((k, json.dumps(v, sort_keys=True)) for k, v in e["args"]), e.get("action_uid"), e.get("flow_uid"))
+
+
+def compare_calls(obs, mouts):
+    for c, m in zip(obs["calls"], mouts):
+        if c["fn"] == "gefe":
+            if m.get("unmodelled"):
+                continue
+            if _ev_canon(c["res"]) != _ev_canon(m):
+                return f"get_event_from_element: implementation built {c['res']} from {c['stmt']}, model built {m}"
+        else:
+            fake_case = {"kind": "event"}
+            fake_obs = {"exc": c["exc"]} if "exc" in c else {"score": c["score"]}
+            d = compare(fake_case, fake_obs, [m])
+            if d:
+                return f"_compute_event_comparison_score (recorded in a run): {d}; event {c['ev']} ref {c['ref']}"
+    return None
+
+
 def compare(case, obs, mouts):
+    if case["kind"] == "e2e_ref":
+        return compare_calls(obs, mouts)
     m = mouts[0]
     if case["kind"] in ("fn", "e2e"):
         if case["kind"] == "e2e":
@@ -591,7 +742,10 @@ def oracle_ref(case, obs):
         return "Hit was sent before any event arrived"
     done = False
     for i, ev in enumerate(case["events"]):
-        if case["sub"] == "action":
+        if case["sub"] == "ctor":
+            want = dict((kk, v) for kk, v in case["params"])
+            fits = isinstance(ev["target"], int) and case["scripts"][ev["target"]] == case["scripts"][case["k"]] and all(kk in ev["params"] and ev["params"][kk] == v for kk, v in want.items())
+        elif case["sub"] == "action":
             want = dict((kk, v) for kk, v in case["params"])
             fits = ev["target"] == case["k"] and all(kk in ev["params"] and ev["params"][kk] == v for kk, v in want.items())
         else:
@@ -685,7 +839,8 @@ def nontrivial(case, obs):
 def tags(case, obs):
     t = ["kind:" + case["kind"]]
     if case["kind"] == "e2e_ref":
-        return t + ["ref:" + case["sub"], "ref-hits:%d" % sum(obs.get("hits", []))]
+        forms = sorted(set("rec:" + (c["stmt"]["form"] if c["fn"] == "gefe" else "cmp-" + c["ev"]["kind"]) for c in obs.get("calls", [])))
+        return t + ["ref:" + case["sub"], "ref-hits:%d" % sum(obs.get("hits", []))] + forms + (["rec-skipped"] if obs.get("calls_skipped") else [])
     if case["kind"] == "fn":
         t.append("how:" + case["how"])
     if "skip" in obs:
